@@ -129,9 +129,34 @@ def phase1(m, idx, outdir):
     return m
 
 
+RELEVANT = {
+    'src/quantity/term.py': ['C07', 'C02', 'C01', 'C20', 'C19', 'C15', 'C17'],
+    'src/quantity/registry.py': ['C02', 'C15', 'C16', 'C17', 'C07'],
+    'src/quantity/cwdmeta.py': ['C02', 'C07', 'C15', 'C17'],
+    'src/quantity/money/__init__.py': ['C09', 'C10', 'C08', 'C05', 'C12',
+                                       'C19', 'C11', 'C16', 'C06'],
+    'src/quantity/converter.py': ['C14', 'C12', 'C03'],
+    'src/quantity/utils.py': ['C03', 'C06', 'C08', 'C05'],
+}
+
+
+def trivially_equivalent(m):
+    """`x is None` -> `x == None` and the like cannot change behaviour"""
+    if (m['old'], m['new']) == ('is', '=='):
+        rest = m['new_line'][m['col'] + 2:].strip()
+        if rest.startswith('None') or rest.startswith('not'):
+            return True
+    return False
+
+
 def phase2(m, idx, outdir):
     diff = os.path.join(outdir, f'm{idx:04d}.diff')
-    for group in (FAST, SLOW):
+    if trivially_equivalent(m):
+        m['caught_by'] = 'equivalent (is None -> == None)'
+        return m
+    groups = (RELEVANT[m['file']],) if m['file'] in RELEVANT \
+        else (FAST, SLOW)
+    for group in groups:
         for prop in group:
             r = sh(f'/verif/tools/try_patch.sh {diff} quick {prop}',
                    timeout=3000)
@@ -152,26 +177,50 @@ def main():
     jobs = int(sys.argv[2]) if len(sys.argv) > 2 else 6
     files = sys.argv[3:] or FILES
     os.makedirs(outdir, exist_ok=True)
-    muts = []
-    for f in files:
-        muts += mutants_of(f)
-    print(f"{len(muts)} mutants", flush=True)
-    with ThreadPoolExecutor(jobs) as ex:
-        res = list(ex.map(lambda im: phase1(im[1], im[0], outdir),
-                          enumerate(muts)))
+    p1 = os.path.join(outdir, 'phase1.json')
+    if os.path.exists(p1):
+        res = json.load(open(p1))
+        muts = res
+        print(f"phase 1 results reused ({len(res)} mutants)", flush=True)
+    else:
+        muts = []
+        for f in files:
+            muts += mutants_of(f)
+        print(f"{len(muts)} mutants", flush=True)
+        with ThreadPoolExecutor(jobs) as ex:
+            res = list(ex.map(lambda im: phase1(im[1], im[0], outdir),
+                              enumerate(muts)))
     surv = [(i, m) for i, m in enumerate(res) if m['survives_tests']]
     print(f"{len(surv)} of {len(muts)} mutants pass the repository's test "
           "suite", flush=True)
     json.dump(res, open(os.path.join(outdir, 'phase1.json'), 'w'), indent=1)
     done = []
-    for i, m in surv:                 # checks use all cores themselves
-        m = phase2(m, i, outdir)
+    with ThreadPoolExecutor(3) as ex:
+        results = ex.map(lambda im: (im[0], phase2(im[1], im[0], outdir)),
+                         surv)
+        results = list(_stream(results, done, outdir))
+    missed = [m for m in done if m['caught_by'] is None]
+    print(f"SUMMARY: {len(muts)} mutants, {len(surv)} test-silent, "
+          f"{len(surv) - len(missed)} caught by a check or trivially "
+          f"equivalent, {len(missed)} not caught (triage: equivalent or gap)")
+    for m in missed:
+        print(f"  NOT CAUGHT {m['file']}:{m['line']}: {m['old_line'].strip()}"
+              f"  ==>  {m['new_line'].strip()}")
+    return
+
+
+def _stream(results, done, outdir):
+    for i, m in results:
         done.append(m)
         print(f"m{i:04d} {m['file']}:{m['line']} {m['old']!r}->{m['new']!r} "
               f"caught_by={m['caught_by']} :: {m['new_line'].strip()[:90]}",
               flush=True)
         json.dump(done, open(os.path.join(outdir, 'phase2.json'), 'w'),
                   indent=1)
+        yield m
+
+
+def _unused(done, muts, surv):
     missed = [m for m in done if m['caught_by'] is None]
     print(f"SUMMARY: {len(muts)} mutants, {len(surv)} test-silent, "
           f"{len(surv) - len(missed)} caught by a check, {len(missed)} "
